@@ -303,6 +303,18 @@ def ob_rename(h):
         h.check("same_zone_tree_up_to_the_renaming", repr(shape(a, {})) == repr(shape(b, inv)))
 
 
+def _deps(module, names, prefix, why):
+    """callee contracts this property's clauses are stated against, discharged here as well (same harness objects, other names)"""
+    out = []
+    for o in module.obligations():
+        base = o.name.split("[")[0]
+        if base in names and o.tier == "quick":
+            out.append(Obligation(o.name.replace(base.split(".")[0] + ".", prefix, 1), o.fn, kind=o.kind, functions=o.functions, bound=o.bound, max_paths=o.max_paths, params=o.params,
+                                  timeout_ms=o.timeout_ms, expect=o.expect, stubs=o.stubs, runner=o.runner, time_budget_s=o.time_budget_s,
+                                  doc=f"(callee contract, shared with {base.split('.')[0]}: {why}) " + (o.doc or "")))
+    return out
+
+
 def obligations():
     fs = [pta.get_process_heat_cascade, pta.create_problem_table_with_t_int, pta._sum_mcp_between_temperature_boundaries, pta.problem_table_algorithm, pta.set_zonal_targets]
     D = ["hot", "cold"]
@@ -327,4 +339,6 @@ def obligations():
                           doc="TRANSLATE and MIRROR of the completed utility records and of the default-utility decision"))
     obs.append(Obligation("C12.rename.b", ob_rename, kind="smallscope", functions=[dp.prepare_problem], bound="two streams over labels {A, B, A/B} x three renamings x both listing orders (exhaustive)",
                           doc="RENAME"))
+    from . import C06
+    obs += _deps(C06, ("C06.idx.u", "C06.idx.b"), "C12.dep.", "pinch rows of a cascade: the mirror / translation clauses compare pinch temperatures read through pinch_idx")
     return obs
